@@ -322,6 +322,7 @@ Definition timer_add (p : prio) (dur key reg : Z) st : Z * state :=
 (* _timer_from_handle_ *)
 Definition timer_from_handle (h : Z) st : option (nat * tslot) :=
   if h =? 0 then None else
+  if h / TWO32 =? 0 then None else   (* a zero check half is never handed out; it marks unused and dispatching slots *)
   let pos := Z.to_nat (h mod TWO32) in
   match nth_error (timers st) pos with
   | None => None
@@ -610,7 +611,13 @@ Definition dispatch (beh : behaviour) (it : qitem) st : state :=
       | None => st
       | Some e =>
           let '(res, st) := callback beh 2 (p_key e) (p_fd e) (p_revents e) (emit (EvInv 2 (p_uid e)) st) in
-          if res <? 0 then set_polls (upd_nth i mark_deleted (polls st)) (emit (EvDel 2 (p_uid e)) st)
+          if res <? 0 then
+            (* ghost: the removal is logged unless a poll_del from inside the callback already logged it *)
+            let st := match nth_error (polls st) i with
+                      | Some e' => if est_eqb (p_state e') Deleted then st else emit (EvDel 2 (p_uid e)) st
+                      | None => st
+                      end in
+            set_polls (upd_nth i mark_deleted (polls st)) st
           else set_polls (upd_nth i (fun e => if est_eqb (p_state e) Deleted then e
                                               else set_prevents 0 (set_pstate Active e)) (polls st)) st
       end
